@@ -417,7 +417,7 @@ def txCheckers : List (String × List String) := [
   ("core/transaction/returnsidechaindepositcointransaction.go : ReturnSideChainDepositCoinTransaction.CheckTransactionOutput", ["guard len(t.Outputs()) > math.MaxUint16", "guard len(t.Outputs()) < 1", "guard err != nil", "guard err != nil"]),
   ("core/transaction/returnsidechaindepositcointransaction.go : ReturnSideChainDepositCoinTransaction.CheckTransactionPayload", []),
   ("core/transaction/returnsidechaindepositcointransaction.go : ReturnSideChainDepositCoinTransaction.HeightVersionCheck", []),
-  ("core/transaction/returnsidechaindepositcointransaction.go : ReturnSideChainDepositCoinTransaction.SpecialContextCheck", ["guard err != nil", "guard err != nil", "idx tx.Inputs()[0]", "guard err != nil", "idx refTx.Outputs()[tx.Inputs()[0].Previous.Index]", "idx tx.Inputs()[0]", "guard err != nil", "idx tx.Outputs()[idx]", "idx tx.Outputs()[idx]"]),
+  ("core/transaction/returnsidechaindepositcointransaction.go : ReturnSideChainDepositCoinTransaction.SpecialContextCheck", ["guard err != nil", "guard err != nil", "guard len(tx.Inputs()) == 0", "idx tx.Inputs()[0]", "guard err != nil", "guard int(tx.Inputs()[0].Previous.Index) >= len(refTx.Outputs())", "idx tx.Inputs()[0]", "idx refTx.Outputs()[tx.Inputs()[0].Previous.Index]", "idx tx.Inputs()[0]", "guard err != nil", "idx tx.Outputs()[idx]", "idx tx.Outputs()[idx]"]),
   ("core/transaction/returnvotes.go : ReturnVotesTransaction.HeightVersionCheck", []),
   ("core/transaction/returnvotes.go : ReturnVotesTransaction.CheckTransactionPayload", []),
   ("core/transaction/returnvotes.go : ReturnVotesTransaction.CheckAttributeProgram", ["guard len(t.Programs()) != 1", "guard t.Programs()[0].Code == nil", "idx t.Programs()[0]", "guard len(t.Programs()[0].Code) < program.MinProgramCodeSize", "idx t.Programs()[0]", "guard t.Programs()[0].Parameter == nil", "idx t.Programs()[0]"]),
@@ -528,10 +528,10 @@ def chainCheckers : List (String × List String) := [
   ("blockchain/txvalidator.go : CheckReturnVotesTransactionSignature", ["guard err != nil", "guard err != nil", "guard err != nil"]),
   ("blockchain/txvalidator.go : CheckCRTransactionSignature", ["guard err != nil", "guard err != nil", "guard err != nil"]),
   ("blockchain/txvalidator.go : CheckPayloadSignature", ["guard err != nil"]),
-  ("blockchain/txvalidator.go : CheckRevertToDPOSTransaction", ["idx txn.Programs()[0]"]),
+  ("blockchain/txvalidator.go : CheckRevertToDPOSTransaction", ["guard len(txn.Programs()) == 0", "idx txn.Programs()[0]"]),
   ("blockchain/txvalidator.go : CheckSidechainIllegalEvidence", ["guard err != nil", "guard err != nil", "guard len(p.Signs) <= int(DefaultLedger.Arbitrators.GetArbitersMajorityCount())"]),
   ("blockchain/txvalidator.go : CheckInactiveArbitrators", ["guard err != nil", "idx txn.Programs()[0]"]),
-  ("blockchain/txvalidator.go : checkArbitratorsSignatures", ["idx code[len(code)-2]", "idx code[0]", "div float64(DefaultLedger.Arbitrators.GetArbitersCount()) * state.MajoritySignRatioNumerator / state.MajoritySignRatioDenominator", "guard err != nil", "slice pk[1:]"]),
+  ("blockchain/txvalidator.go : checkArbitratorsSignatures", ["guard len(code) < 2", "idx code[len(code)-2]", "idx code[0]", "div float64(DefaultLedger.Arbitrators.GetArbitersCount()) * state.MajoritySignRatioNumerator / state.MajoritySignRatioDenominator", "guard err != nil", "slice pk[1:]"]),
   ("blockchain/txvalidator.go : checkCRCArbitratorsSignatures", ["guard len(code) < 2", "idx code[len(code)-2]", "idx code[0]", "div float64(crcArbitratorsCount) * state.MajoritySignRatioNumerator / state.MajoritySignRatioDenominator", "guard err != nil", "slice pk[1:]"]),
   ("blockchain/txvalidator.go : CheckDPOSIllegalProposals", ["guard err != nil", "guard err != nil", "guard err != nil", "guard err != nil"]),
   ("blockchain/txvalidator.go : CheckDPOSIllegalVotes", ["guard err != nil", "guard err != nil", "guard err != nil", "guard err != nil", "guard err != nil", "guard err != nil"]),
